@@ -181,6 +181,7 @@ func runLazyOnceV(c *Ctx, keyPrefix string, keep func(key string) bool, variants
 			behs = append(behs, b)
 		}
 	}})
+	notFollowed := 0
 	for i, b := range behs {
 		if c.Saturated() {
 			break
@@ -189,8 +190,12 @@ func runLazyOnceV(c *Ctx, keyPrefix string, keep func(key string) bool, variants
 			if !c.Thorough() && (i+vi)%(len(variants)+2) != 0 {
 				continue
 			}
+			if notFollowed >= 15 {
+				continue
+			}
 			fs, inc := replayLazyOnce(b, v)
 			if inc != "" {
+				notFollowed++
 				c.Note("lazy first-use schedule not followed: %s", inc)
 				c.Add("schedules_not_followed", 1)
 				continue
